@@ -373,6 +373,108 @@ pub fn gen_case(tape: Vec<u8>) -> TdCase {
     td::gen_case(&mut U::new(&tape))
 }
 
+// ---------------------------------------------------------------- integer values written as large number literals
+
+/// A uint256/int256/uint128 member (or the domain's chainId) whose value is a bare JSON number literal denoting an
+/// integer of 2^53 or more: plain digits beyond 2^64-1, or mantissa-and-exponent forms. The property gives such a
+/// document one meaning - the integer written; a reader may refuse the literal, but if it accepts it the digests
+/// are those of exactly that integer (a reader that goes through binary64 hashes another integer for most of them).
+#[derive(Clone, Debug, Serialize, Deserialize)]
+pub struct LiteralCase {
+    pub literal: String,
+    pub value_dec: String,
+    pub slot: String,
+}
+
+fn gen_literal(tape: Vec<u8>) -> LiteralCase {
+    use crate::refimpl::u256::Big;
+    let mut u = U::new(&tape);
+    let slot = ["message.a:uint256", "message.b:int256", "message.c:uint128", "domain.chainId"][u.below(4)];
+    let max_bits = match slot {
+        "message.b:int256" => 255,
+        "message.c:uint128" => 128,
+        _ => 256,
+    };
+    for _ in 0..40 {
+        let nd = 1 + u.below(22);
+        let mut m: String = (0..nd).map(|i| (b'0' + if i == 0 { 1 + u.below(9) as u8 } else { u.below(10) as u8 }) as char).collect();
+        if u.ratio(1, 4) {
+            m = ["1", "12", "25", "123456789", "18446744073709551617", "9007199254740993", "340282366920938463463374607431768211455"][u.below(7)].to_string();
+        }
+        let e = if m.len() > 16 && u.ratio(1, 3) { 0 } else { u.below(62) };
+        let dec = format!("{m}{}", "0".repeat(e));
+        let Some(x) = Big::from_dec(&dec) else { continue };
+        if x.bit_len() <= 53 || x.bit_len() > max_bits {
+            continue;
+        }
+        let literal = match u.below(6) {
+            0 => dec.clone(),
+            1 => format!("{m}e{e}"),
+            2 => format!("{m}E+{e}"),
+            3 if m.len() > 1 => format!("{}.{}e{}", &m[..1], &m[1..], e + m.len() - 1),
+            4 => format!("{dec}.0"),
+            _ => format!("{m}e+{e}"),
+        };
+        return LiteralCase { literal, value_dec: dec, slot: slot.to_string() };
+    }
+    // the tape ran out before a value of 2^53 or more came up
+    LiteralCase { literal: "1e23".into(), value_dec: format!("1{}", "0".repeat(23)), slot: slot.to_string() }
+}
+
+fn judge_literal(c: &LiteralCase, cls: &mut Classifier) -> Verdict {
+    use crate::refimpl::u256::Big;
+    let Some(x) = Big::from_dec(&c.value_dec) else { return fail("decimal value", c.value_dec.clone(), "bad replay case") };
+    let lit = |slot: &str, other: &str| if c.slot == slot { c.literal.clone() } else { other.to_string() };
+    let val = |slot: &str, other: u128| if c.slot == slot { x.clone() } else { Big::from_u128(other) };
+    let doc = format!(
+        r#"{{"types":{{"EIP712Domain":[{{"name":"name","type":"string"}},{{"name":"chainId","type":"uint256"}}],"Amounts":[{{"name":"a","type":"uint256"}},{{"name":"b","type":"int256"}},{{"name":"c","type":"uint128"}}]}},"primaryType":"Amounts","domain":{{"name":"literals","chainId":{}}},"message":{{"a":{},"b":{},"c":{}}}}}"#,
+        lit("domain.chainId", "1"),
+        lit("message.a:uint256", "2"),
+        lit("message.b:int256", "3"),
+        lit("message.c:uint128", "4")
+    );
+    let model = TdModel {
+        graph: TypeGraph {
+            structs: vec![
+                crate::refimpl::eip712::StructDef { name: "EIP712Domain".into(), members: vec![("name".into(), Ty::String), ("chainId".into(), Ty::Uint(256))] },
+                crate::refimpl::eip712::StructDef { name: "Amounts".into(), members: vec![("a".into(), Ty::Uint(256)), ("b".into(), Ty::Int(256)), ("c".into(), Ty::Uint(128))] },
+            ],
+        },
+        primary: "Amounts".into(),
+        message: Val::Struct(vec![("a".into(), Val::Uint(val("message.a:uint256", 2))), ("b".into(), Val::Int { neg: false, mag: val("message.b:int256", 3) }), ("c".into(), Val::Uint(val("message.c:uint128", 4)))]),
+        domain: Val::Struct(vec![("name".into(), Val::Str("literals".into())), ("chainId".into(), Val::Uint(val("domain.chainId", 1)))]),
+    };
+    let Some((ds, mh, digest)) = td::expected(&model) else { return fail("conforming model", "reference cannot hash the model", "harness: literal model") };
+    let got = catch(|| serde_json::from_str::<TypedData>(&doc).map(|t| (t.domain_separator().0, t.message_hash().0, t.signing_message().0)).map_err(|e| e.to_string()));
+    match got {
+        Err(p) => return fail("digests or an error", p, format!("typed-data handling panicked: {doc}")),
+        Ok(Err(_)) => cls.label("literal-refused"),
+        Ok(Ok((gds, gmh, gdig))) => {
+            cls.label("literal-accepted");
+            if (gds, gmh, gdig) != (ds, mh, digest) {
+                return fail(
+                    format!("refused, or the digests of the integer written ({}): domain separator {} message hash {} digest {}", c.value_dec, hex_lower(&ds), hex_lower(&mh), hex_lower(&digest)),
+                    format!("domain separator {} message hash {} digest {}", hex_lower(&gds), hex_lower(&gmh), hex_lower(&gdig)),
+                    format!("{} written as the number literal {} in {doc}", c.slot, c.literal),
+                );
+            }
+        }
+    }
+    let exact_in_binary64 = {
+        // the integer survives a trip through binary64 iff its odd part has at most 53 bits
+        let mut y = x.clone();
+        while !y.is_zero() && y.divrem_small(2).1 == 0 {
+            y = y.divrem_small(2).0;
+        }
+        y.bit_len() <= 53
+    };
+    cls.label(if exact_in_binary64 { "literal-exact-in-binary64" } else { "literal-not-representable-in-binary64" });
+    cls.label(if c.literal.contains(['e', 'E', '.']) { "literal-exponent-or-point" } else { "literal-plain-digits" });
+    cls.nontrivial(&(c.literal.as_str(), c.slot.as_str()));
+    cls.sample("big-literals", || json!({"slot": c.slot, "literal": c.literal, "value": c.value_dec}));
+    Ok(())
+}
+
 // ---------------------------------------------------------------- grammar sweep (hook)
 
 #[derive(Clone, Debug, Serialize, Deserialize)]
@@ -407,7 +509,7 @@ fn judge_type_string(c: &TypeString, cls: &mut Classifier) -> Verdict {
 }
 
 pub fn run(ctx: &mut Ctx) {
-    ctx.rule = "a type graph (1..6 structs, names chosen to stress ordering and the type grammar, 0..6 members - one graph in eight has a wide struct of 7..65 members with the counts 15/16/17, 31/32/33, 63/64/65 over-represented -, member types atomic | struct reference | array up to 3 dimensions fixed 0..3 or dynamic; cycles only through dynamic/empty arrays; shared, repeated, diamond, self- and mutually-recursive references) and a conforming value tree generated together from a byte tape; integers at range boundaries in every accepted spelling; one of the 31 well-formed domains; any struct (occasionally EIP712Domain) as primaryType; JSON keys shuffled. Oracle: EIP-712 reference computed from the AST (dependency set = reachable minus primary, name order, once each); domain separator, message hash and signing digest must match; with the hook, encodeType of every struct must equal the reference string and the parse/print image of {100 atoms} x {suffix lists up to length 3 over [],[0],[1],[2],[10]} must be the identity (15600 strings, exhaustive). Histories: a document, 2-4 relatives (same types with a fresh message, another domain, the members of one struct reversed, one member renamed - old struct names with new definitions) and the first one again, hashed one after the other on one thread. CLI sample: the same generator through `hdwallet hash typeddata` (file/stdin), `--message-hash`/`-m` and (one in five) `sign typeddata` must print the reference digest / message hash / RFC 6979 signature of the reference key. Non-trivial: primary type reaches another struct or contains an array; distinct by document.".into();
+    ctx.rule = "a type graph (1..6 structs, names chosen to stress ordering and the type grammar, 0..6 members - one graph in eight has a wide struct of 7..65 members with the counts 15/16/17, 31/32/33, 63/64/65 over-represented -, member types atomic | struct reference | array up to 3 dimensions fixed 0..3 or dynamic; cycles only through dynamic/empty arrays; shared, repeated, diamond, self- and mutually-recursive references) and a conforming value tree generated together from a byte tape; integers at range boundaries in every accepted spelling; one of the 31 well-formed domains; any struct (occasionally EIP712Domain) as primaryType; JSON keys shuffled. Oracle: EIP-712 reference computed from the AST (dependency set = reachable minus primary, name order, once each); domain separator, message hash and signing digest must match; with the hook, encodeType of every struct must equal the reference string and the parse/print image of {100 atoms} x {suffix lists up to length 3 over [],[0],[1],[2],[10]} must be the identity (15600 strings, exhaustive). Histories: a document, 2-4 relatives (same types with a fresh message, another domain, the members of one struct reversed, one member renamed - old struct names with new definitions) and the first one again, hashed one after the other on one thread. CLI sample: the same generator through `hdwallet hash typeddata` (file/stdin), `--message-hash`/`-m` and (one in five) `sign typeddata` must print the reference digest / message hash / RFC 6979 signature of the reference key. Big literals: a uint256/int256/uint128 member or the domain's chainId written as a bare JSON number literal denoting an integer of 2^53 or more (plain digits beyond 2^64-1, mantissa-and-exponent and .0 forms): refused, or hashed as exactly the integer written. Non-trivial: primary type reaches another struct or contains an array; distinct by document.".into();
     ctx.assumptions = vec!["sha3 Keccak".into(), "struct and member names are ASCII identifiers (sort orders agree)".into()];
     ctx.replay_known_and_regressions(&replay);
     let n = ctx.tier.pick(60_000, 1_000_000);
@@ -449,6 +551,10 @@ pub fn run(ctx: &mut Ctx) {
     ctx.run_cases("type-strings", &strings, judge_type_string);
     let nh = ctx.tier.pick(6000, 100_000);
     ctx.run_prop("history", nh, || crate::gen::tape(2500).prop_map(gen_history), judge_history);
+    let nl = ctx.tier.pick(6000, 120_000);
+    ctx.run_prop("big-literals", nl, || crate::gen::tape(400).prop_map(gen_literal), judge_literal);
+    ctx.floor("literal-not-representable-in-binary64", nl as u64, 0.3);
+    ctx.floor("literal-exponent-or-point", nl as u64, 0.3);
     for ch in ["same-types-fresh-message", "other-domain", "members-reversed", "member-renamed"] {
         ctx.floor(&format!("history/{ch}"), nh as u64, 0.1);
     }
@@ -518,6 +624,7 @@ pub fn replay(sub: &str, case: &Value) -> Option<Verdict> {
         "type-strings" => Some(replay_as::<TypeString>(case, judge_type_string)),
         "cli" => Some(replay_as::<TdCase>(case, judge_cli)),
         "history" => Some(replay_as::<HistCase>(case, judge_history)),
+        "big-literals" => Some(replay_as::<LiteralCase>(case, judge_literal)),
         _ => None,
     }
 }
